@@ -320,4 +320,41 @@ def reopen (cw : Perm → Bool) (keep : Bool) (l : Log) (t : TreeSt) : Bool :=
   | .ok () => true
   | .error _ => false
 
+/-! ## whole-tree validation (`ValidateRawTreeDefault`) -/
+
+/-- `Unmarshall(raw, verify = false)` — how a change is read back from (deferred) storage -/
+def unmarshalNoVerify (rootId : Id) (raw : Raw) : Except Err Change :=
+  match raw.body.decoded with
+  | none => .error .decode
+  | some (p, _) => .ok ⟨raw.id, raw.id == rootId && p.derived, p.identity, p.aclHead, p.prev, p.snap, p.isSnap⟩
+
+inductive VErr where
+  | err (e : Err)
+  | headsMismatch     -- resulting heads differ from the claimed ones (ErrHasInvalidChanges)
+  | derivedEmpty      -- ErrDerived
+  | rebuild           -- not modelled (see `Outcome.rebuild`)
+deriving Repr, DecidableEq
+
+/-- `ValidateRawTreeDefault`: `BuildEmptyDataObjectTree` over a deferred storage holding only the
+root (tree built WITHOUT verification, fully validated, then the header verified), then
+`AddRawChanges` of all supplied changes, then the heads comparison and the empty-derived check -/
+def validateRawTree (H : Nat → Id) (cw : Perm → Bool) (keep : Bool) (l : Log) (root : Raw)
+    (changes : List Raw) (heads : List Id) : Except VErr TreeSt :=
+  match unmarshalNoVerify root.id root with
+  | .error e => .error (.err e)
+  | .ok c0 =>
+    match validateChange cw keep l [c0] root.id c0 with
+    | .error e => .error (.err e)
+    | .ok () =>
+      match unmarshal H root.id root with
+      | .error e => .error (.err e)
+      | .ok c =>
+        match addRaw H cw keep l ⟨root.id, [c], [root.id], [root.id], [root.id]⟩ changes with
+        | (.err e, _, _) => .error (.err e)
+        | (.rebuild, _, _) => .error .rebuild
+        | (.ok, _, t') =>
+          if sortNats t'.heads ≠ sortNats heads then .error .headsMismatch
+          else if c.derived && t'.attached.length == 1 then .error .derivedEmpty
+          else .ok t'
+
 end AnySync.Auth
